@@ -48,6 +48,9 @@ def run(ctx, report):
             if e.kind in ("global-store", "module-mutation"):
                 r_w.finding(f"{f.short}:{e.target}", f"{f.short} writes module-level state {e.target!r} {e.detail}: a later call can observe an earlier one "
                             f"({eff.path_to(runtime, f)})", e.where)
+            elif e.kind == "default-mutation":
+                r_w.finding(f"{f.short}:{e.target}", f"{f.short} uses its mutable default argument {e.target!r} as working storage ({e.detail}): the one default object is "
+                            "shared by every call and every thread", e.where)
             elif e.kind == "tainted-mutation":
                 r_w.finding(f"{f.short}:{e.target}", f"{f.short} modifies the bundled registry data through {e.target!r} ({e.detail})", e.where)
             elif e.kind == "param-mutation":
